@@ -395,6 +395,17 @@ def generate_control_proto(repo: Path) -> str:
             "set_option linter.unusedSimpArgs false\nnamespace Pamiq.GenCTP\nopen Pamiq\n\n" + body + "\nend Pamiq.GenCTP\n")
 
 
+def generate_handler(repo: Path) -> str:
+    """`ControllerCommandHandler.manage_loop` / `stop_if_pause` (the loop guard of every background thread) interpreted
+    over a background thread's graph of `Pamiq.Proto` (`Model/ProtoBg.lean`)."""
+    import translate_skel as S
+    t = S.SkelTr(repo, S.HANDLER_SPEC)
+    gen = t.generate(["manage_loop"])
+    body = (TIES_DIR / "handler_proto.lean").read_text().replace("--%GEN%\n", gen)
+    return ("import Pamiq.Lemmas.ProtoBg\nset_option linter.unusedVariables false\nset_option linter.unusedSimpArgs false\n"
+            "namespace Pamiq.GenH\nopen Pamiq\n\n" + body + "\nend Pamiq.GenH\n")
+
+
 def qualified_theorems(text: str) -> list[str]:
     """Fully qualified names of the theorems of a generated file (namespaces tracked line by line)."""
     ns: list[str] = []
@@ -428,7 +439,8 @@ def check_class(res: SuiteResult, repo: Path, which: str = "TimeController") -> 
                              "TimeIntervalScheduler": (generate_tsched, "GenTSched", "Pamiq.Sched", 2),
                              "StepIntervalScheduler": (generate_ssched, "GenSSched", "Pamiq.Sched", 3),
                              "ControlThread.on_tick": (generate_control_tick, "GenCT", "Pamiq.Tick", 5),
-                             "ControlThread.pause_save": (generate_control_proto, "GenCTP", "Pamiq.Proto (ProtoCtl)", 7)}[which]
+                             "ControlThread.pause_save": (generate_control_proto, "GenCTP", "Pamiq.Proto (ProtoCtl)", 7),
+                             "ControllerCommandHandler": (generate_handler, "GenH", "Pamiq.Proto (ProtoBg)", 2)}[which]
     try:
         text = gen(repo)
     except T.Untranslatable as e:
@@ -437,7 +449,7 @@ def check_class(res: SuiteResult, repo: Path, which: str = "TimeController") -> 
         res.extra.setdefault("unavailable", []).append(f"{which}: {e}")
         return
     names = re.findall(r"^theorem (\w+)", text, re.M)
-    qnames = qualified_theorems(text) if which.startswith("ControlThread") else [f"Pamiq.{ns}.{n}" for n in names]
+    qnames = qualified_theorems(text) if which.startswith("Control") else [f"Pamiq.{ns}.{n}" for n in names]
     with tempfile.TemporaryDirectory(prefix="pamiq-verif.") as d:
         f = Path(d) / "GenTC.lean"
         f.write_text(text + "\n" + "\n".join(f"#print axioms {n}" for n in qnames) + "\n")
@@ -530,6 +542,8 @@ def suite_for(*props: str):
             check_class(res, Path(REPO), "ControlThread.on_tick")
         if {"C01", "C02", "C04"} & set(props):
             check_class(res, Path(REPO), "ControlThread.pause_save")
+        if {"C01", "C02", "C09"} & set(props):
+            check_class(res, Path(REPO), "ControllerCommandHandler")
         text, parts, done, skipped = generate(Path(REPO), props)
         for fn, why in skipped:
             res.evaluations += 1
@@ -605,6 +619,11 @@ if __name__ == "__main__":
                         "thread/threads/control.py (reference copy of what every C01 / C02 / C04 run re-creates and re-checks; "
                         "do not edit). -/\n" + generate_control_proto(Path(REPO)))
         print("written", out6)
+        out7 = Path(LEAN_DIR) / "Pamiq" / "Gen" / "CommandHandlerTie.lean"
+        out7.write_text("/- GENERATED by harness/gentie.py (translate_skel.py + harness/ties/handler_proto.lean) from /repo's "
+                        "thread/thread_control.py (reference copy of what every C01 / C02 / C09 run re-creates and re-checks; "
+                        "do not edit). -/\n" + generate_handler(Path(REPO)))
+        print("written", out7)
         out = Path(LEAN_DIR) / "Pamiq" / "Gen" / "DecisionsTie.lean"
         out.parent.mkdir(exist_ok=True)
         out.write_text("/- GENERATED by harness/gentie.py from /repo's source (reference copy of what every run "
